@@ -356,7 +356,7 @@ impl Case for WCase {
 fn enumerate(args: &Args) -> Vec<WCase> {
     let th = args.tier == "thorough";
     let mut v = Vec::new();
-    for pop in 0..=(if th { 6 } else { 4 }) {
+    for pop in 0..=(if th { 6 } else { 5 }) {
         for inv in [false, true] {
             if pop < 3 {
                 v.push(WCase::Pop { pop, inv, top: None });
